@@ -1,6 +1,7 @@
 import Lean.Data.Json
 import AFModel.Ident
 import AFModel.IdentComp
+import AFModel.IdentJoin
 import AFDriver.Wire
 
 open Lean (Json)
@@ -130,9 +131,16 @@ def handleC07Comp (j : Json) : Except String Json := do
       pure (Json.mkObj (base ++ [("fit", strArr (tokens (fitVal s t tag)))]))
   | _ => pure (Json.mkObj base)
 
+/-- `{"kind":"join","tokens":[…]}`: the hashed text and the dot-free pieces of a token list -/
+def handleC07Join (j : Json) : Except String Json := do
+  let ts ← (← (j.getObjVal? "tokens") >>= (·.getArr?)).toList.mapM (·.getStr?)
+  pure (Json.mkObj [("joined", Json.str (joinTokens ts)), ("pieces", strArr (tokenPieces ts)),
+    ("dotfree", Json.bool (ts.all (fun t => dotFree t.toList)))])
+
 def handleC07 (j : Json) : Except String Json := do
   match j.getObjVal? "kind" with
   | .ok (Json.str "comp") => handleC07Comp j
+  | .ok (Json.str "join") => handleC07Join j
   | _ =>
   let v ← parsePyVal (← j.getObjVal? "val")
   let ts := tokens v
